@@ -104,7 +104,7 @@ def gen_job(seed, profile="general"):
     r = S["gen"]
     doc = {"kind": "job", "seed": seed, "profile": profile}
     dim = r.choice([2, 3, 3])
-    history = profile in ("history",) or (profile == "general" and r.random() < 0.25)
+    history = profile in ("history",) or (profile in ("general", "tangent") and r.random() < 0.25)
     want_mixed = r.random() < 0.2 and not history
     want_nearly = r.random() < 0.2 and not history and not want_mixed
     allow = ("linear", "linear", "quadratic", "full", "simplex", "simplex2")
@@ -145,6 +145,8 @@ def gen_job(seed, profile="general"):
     # loads ---------------------------------------------------------------------------------
     nsteps = r.choice([1, 1, 2])
     case = r.choice(["uniaxial", "uniaxial", "biaxial", "shear", "custom", "patch"])
+    if profile == "tangent":
+        case = r.choice(["uniaxial", "uniaxial", "custom", "biaxial", "shear", "patch"])
     if fkind == "Axi" and case in ("biaxial", "shear", "patch"):
         case = "uniaxial"
     if dim == 2 and case == "biaxial" and fkind == "Mixed3":
@@ -168,8 +170,34 @@ def gen_job(seed, profile="general"):
             extra.append({"type": "SolidBodyForce", "values": [0.0] * fd, "scale": rfloat(r, 0.5, 2.0), "_top": [rfloat(r, -0.1, 0.1) for _ in range(fd)]})
         else:
             extra.append({"type": "SolidBodyPressure", "face": {"mask_axis": 1, "mask_value": "max"}, "pressure": 0.0, "_top": rfloat(r, -0.1, 0.1)})
+    if profile == "tangent":
+        # richer item mix for the tangent check: constraints, contact, Cauchy-stress load, form items
+        fd = 2 if dim == 2 else 3
+        quadhex = mesh.get("convert") in (None, "quadratic", "triquadratic", "biquadratic")
+        pick = r.choice(["mpc", "contact", "cauchy", "form", "pressure", "none"])
+        if pick in ("mpc", "contact") and case in ("uniaxial", "custom") and fkind != "Axi":
+            bb = mesh["b"]
+            gap = r.choice([0.01, 0.02, 0.05]) if pick == "contact" else 0.2
+            mesh["extra_point"] = [0.5 * bb[0], bb[1] + gap] + ([0.5 * bb[2]] if dim == 3 else [])
+            if pick == "mpc":
+                extra.append({"type": "MultiPointConstraint", "points": {"axis": 1, "at": "max"}, "centerpoint": {"at": "extra"}, "skip": [r.random() < 0.3 for _ in range(dim)], "multiplier": r.choice([1.0, 10.0, 100.0])})
+                if all(extra[-1]["skip"]):
+                    extra[-1]["skip"][1] = False
+            else:
+                extra.append({"type": "MultiPointContact", "points": {"axis": 1, "at": "max"}, "centerpoint": {"at": "extra"}, "skip": [True, False] + ([True] if dim == 3 else []), "multiplier": r.choice([10.0, 100.0, 1000.0])})
+                top = -abs(top) * 2 if r.random() < 0.8 else top
+        elif pick == "cauchy" and quadhex and fkind in ("Field", "PlaneStrain"):
+            sg = [[rfloat(r, -0.1, 0.1) for _ in range(3)] for _ in range(3)]
+            sg = [[round(0.5 * (sg[i][j] + sg[j][i]), 4) for j in range(3)] for i in range(3)]
+            extra.append({"type": "SolidBodyCauchyStress", "face": {"mask_axis": 1, "mask_value": "max"}, "stress": sg})
+        elif pick == "form" and fkind == "Field" and not mesh.get("convert"):
+            extra.append({"type": "FormItem", "C_seed": r.randrange(1 << 30), "mu": rfloat(r, 0.2, 1.0), "lmbda": rfloat(r, 0.2, 1.0), "scale": 1.0, "sym": r.random() < 0.3, "_top": rfloat(r, 0.5, 1.5)})
+        elif pick == "pressure" and quadhex and fkind != "Mixed3":
+            extra.append({"type": "SolidBodyPressure", "face": {"mask_axis": 1, "mask_value": "max"}, "pressure": 0.0, "_top": rfloat(r, -0.3, 0.3)})
     if fkind == "Mixed3":
-        extra = [e for e in extra if e["type"] in ("PointLoad", "SolidBodyGravity", "SolidBodyForce")]
+        extra = [e for e in extra if e["type"] in ("PointLoad", "SolidBodyGravity", "SolidBodyForce", "MultiPointConstraint", "MultiPointContact")]
+    if mesh.get("extra_point") and not any(e["type"].startswith("MultiPoint") for e in extra):
+        mesh.pop("extra_point")
     items.extend(extra)
     if case == "custom":
         lst = [{"name": "fix", "fx": "min", "value": 0.0}]
